@@ -26,3 +26,11 @@ pub fn prop() -> DiceProp {
         shards: 0,
     }
 }
+
+pub fn run(ctx: &super::core::Ctx) -> super::core::Report {
+    super::progprop::run(&prop(), ctx)
+}
+
+pub fn replay(ctx: &super::core::Ctx, case: &serde_json::Value) -> super::core::Report {
+    super::progprop::replay(&prop(), ctx, case)
+}
